@@ -49,6 +49,8 @@ def build(spec):
         return c
     if t == 'H':
         return hostile(spec[1])
+    if t == 'R':
+        return Record(spec[1])
     if t == 'M':
         import sys
         cls = getattr(sys.modules.get('__main__'), 'MainPoint', None) or _MainPointStandIn
@@ -125,6 +127,33 @@ class BadHashRuntime(object):
     """unhashable, but says so with another exception than TypeError (as a writable memoryview does with ValueError)"""
     def __hash__(self):
         raise RuntimeError('detached object has no stable identity to hash')
+
+
+class Record(object):
+    """a dict-backed record: unknown attribute names are looked up in the field dict, so `record.anything` raises KeyError (not AttributeError).
+    An ordinary, hashable, printable, picklable argument value - code that probes its attributes must be prepared for that"""
+    def __init__(self, x):
+        self._fields = {'x': x}
+
+    def __getattr__(self, name):
+        if name.startswith('__') or name == '_fields':
+            raise AttributeError(name)
+        return self._fields[name]
+
+    def __repr__(self):
+        return 'Record(%r)' % (self._fields['x'],)
+
+    def __eq__(self, other):
+        return isinstance(other, Record) and other._fields == self._fields
+
+    def __ne__(self, other):
+        return not self.__eq__(other)
+
+    def __hash__(self):
+        return hash(('Record', self._fields['x']))
+
+    def __reduce__(self):
+        return (Record, (self._fields['x'],))
 
 
 def hostile(kind):
@@ -208,6 +237,8 @@ def canon(v):
         return ('S',) + tuple(sorted((canon(x) for x in v), key=repr))
     if isinstance(v, dict):
         return ('d',) + tuple(sorted(((canon(k), canon(x)) for k, x in v.items()), key=repr))
+    if isinstance(v, Record):
+        return ('R', canon(v._fields['x']))
     return ('o', type(v).__name__)
 
 
